@@ -86,9 +86,7 @@ def prod_check(spec):
     if status == "err":
         raise Reject(f"NumPy rejects: {want}")
     sig = dict(op=spec["op"], zero_chunk=any(A.has_zero_chunk(a["chunks"]) for a in spec["arrays"]), zero_length=any(0 in a["shape"] for a in spec["arrays"]),
-               # strata of known trouble: a length-1 axis split into blocks by an explicit empty chunk (same input class as C19's
-               # finding), and an einsum index repeated inside one operand whose two axes are chunked differently
-               multiblock_len1_axis=any(n == 1 and len(c) > 1 for a in spec["arrays"] for n, c in zip(a["shape"], a["chunks"])),
+               # input-class flag: an einsum index repeated inside one operand whose two axes are chunked differently
                repeated_index_diff_chunks=repeated_diff(spec),
                # contraction of sub-64-bit integers goes through Array.sum, which widens (NumPy's tensordot/einsum do not)
                small_int=all(np.dtype(a["dtype"]).kind in "iub" and np.dtype(a["dtype"]).itemsize < 8 for a in spec["arrays"]),
@@ -99,7 +97,10 @@ def prod_check(spec):
         got = r.compute(scheduler="sync")
     nterms = max([x.size for x in xs] + [1])
     exact, rtol, atol = tol(xs, nterms, np.asarray(want).dtype)
-    A.same_array(got, want, exact=exact, rtol=rtol, atol=atol, what=f"{spec['op']} {spec.get('axes', spec.get('subscripts', ''))}", sig=sig)
+    what = f"{spec['op']} {spec.get('axes', spec.get('subscripts', ''))}"
+    # values first, dtype second: a dtype-only deviation (the small_int finding) must not hide a wrong value
+    A.same_array(got, want, exact=exact, rtol=rtol, atol=atol, what=what, sig=sig, check_dtype=False)
+    ensure(np.asarray(got).dtype == np.asarray(want).dtype, f"{what}: dtype {np.asarray(got).dtype} != numpy {np.asarray(want).dtype}", "dtype-mismatch", **sig)
     A.check_meta(r, got, sig=sig)
 
 
@@ -142,7 +143,12 @@ DTS = ["i8", "f8", "f8", "i4", "f4", "c16"]
 
 @st.composite
 def arr(draw, shape, dtypes=DTS):
-    return draw(A.array_spec(shape=shape, dtypes=dtypes, fills=("small", "normal", "dups"), allow_zero_chunks=draw(st.integers(0, 7)) == 0))
+    a = draw(A.array_spec(shape=shape, dtypes=dtypes, fills=("small", "normal", "dups"), allow_zero_chunks=draw(st.integers(0, 7)) == 0))
+    # An explicit empty chunk on a LENGTH-1 axis (chunks (0,1)/(1,0)) is not explored here: blockwise chunk unification takes
+    # the multi-block length-1 axis for a non-broadcast one (shape (2,..) results) -- that root cause is C19's open finding
+    # `broadcast-multiblock-len1-axis` and is tracked there; every tensor product would only re-report it.
+    a["chunks"] = [[c for c in ch if c] if n == 1 else ch for n, ch in zip(a["shape"], a["chunks"])]
+    return a
 
 
 @st.composite
